@@ -510,12 +510,18 @@ func (b *builder) processFunction(root *functionNode, props *builderProp) (query
 		if len(root.Args) > 1 {
 			return nil, fmt.Errorf("xpath: %s function must have at most one parameter", root.FuncName)
 		}
+		if len(root.Args) == 0 && root.FuncName != "boolean" {
+			// string() and number() without argument apply to the context node.
+			root.Args = []node{newAxisNode("self", allNode, "", "", "", nil)}
+		}
 		if len(root.Args) == 1 {
 			argQuery, err := b.processNode(root.Args[0], flagsEnum.None, props)
 			if err != nil {
 				return nil, err
 			}
 			inp = argQuery
+		} else {
+			return nil, errors.New("xpath: boolean function must have one parameter")
 		}
 		switch root.FuncName {
 		case "boolean":
